@@ -18,6 +18,14 @@
                              prefix    w        "^w"       position 1 matches w
                              suffix    w        "w$"       the last Len(w) bytes match w
                              alt       w w2     "w|w2"     contains w or contains w2
+                           classes that also match the EMPTY word (they hold for every id with 4 bytes, but - like every
+                           apid/ctid criterion - never for a message without extended header, where there is no id):
+                             any                ".*"       always
+                             opt       w        "w?"       always (w one character, optional)
+                             altempty  w        "w|"       always (alternation with an empty branch)
+                             contains  <<>>     ""         always (the empty regex; JSON with ...IsRegex and public fields only)
+                             empty              "^$"       only the empty word: never for 4 id bytes
+                             nostar    w        "^[^w]*$"  no byte equals the character w (NUL bytes are fine)
      type criterion [k, v, mask]      "vmm"  (JSON verb_mstp_mtin = v): value v under mask 0x0f if MTIN(v) = 0 else 0xff
                                       "mstp" (JSON mstp = v, DLF control messages = 3): value (v%8)*2 under mask 0x0e
                                       "raw"  (public field): value v under mask
@@ -39,6 +47,10 @@ Dot    == 99      \* regex '.'
 Caret  == 90      \* '^'
 Pipe   == 91      \* '|'
 Dollar == 92      \* '$'
+LBr    == 93      \* '['
+RBr    == 94      \* ']'
+Star   == 95      \* '*'
+QMark  == 96      \* '?'
 
 -----------------------------------------------------------------------------
 \* ids
@@ -54,6 +66,9 @@ ReHolds(cls, w, w2, x) ==
       [] cls = "prefix"   -> PatAt(w, x, 1)
       [] cls = "suffix"   -> PatAt(w, x, Len(x) - Len(w) + 1)
       [] cls = "alt"      -> ContainsPat(w, x) \/ ContainsPat(w2, x)
+      [] cls \in {"any", "opt", "altempty"} -> TRUE
+      [] cls = "empty"    -> Len(x) = 0
+      [] cls = "nostar"   -> \A i \in 1..Len(x) : x[i] # w[1]
 
 NoId == [k |-> "none", cls |-> "", w |-> <<>>, w2 |-> <<>>]
 Lit(w) == [k |-> "lit", cls |-> "", w |-> w, w2 |-> <<>>]
@@ -70,7 +85,14 @@ Syn(c) == CASE c.k = "none"     -> <<>>
             [] c.cls = "prefix"   -> <<Caret>> \o c.w
             [] c.cls = "suffix"   -> c.w \o <<Dollar>>
             [] c.cls = "alt"      -> c.w \o <<Pipe>> \o c.w2
-HasReChar(s) == \E i \in 1..Len(s) : s[i] \in {Dot, Caret, Pipe, Dollar}
+            [] c.cls = "any"      -> <<Dot, Star>>
+            [] c.cls = "opt"      -> c.w \o <<QMark>>
+            [] c.cls = "altempty" -> c.w \o <<Pipe>>
+            [] c.cls = "empty"    -> <<Caret, Dollar>>
+            [] c.cls = "nostar"   -> <<Caret, LBr, Caret>> \o c.w \o <<RBr, Star, Dollar>>
+HasReChar(s) == \E i \in 1..Len(s) : s[i] \in {Dot, Caret, Pipe, Dollar, LBr, RBr, Star, QMark}
+\* an empty string in a DLF element or an ECU:APID:CTID part means "no criterion", so it cannot carry the empty regex
+NonEmptySyn(c) == c.k = "none" \/ Len(Syn(c)) > 0
 \* regex auto-detection (contains_regex_chars) yields the intended kind
 AutoOk(c) == c.k = "none" \/ ((c.k = "re") = HasReChar(Syn(c)))
 
@@ -135,6 +157,7 @@ Expressible(fe, f) ==
       [] fe = "jsona" -> f.type.k # "raw" /\ SomeId(f) /\ AutoOk(f.ecu) /\ AutoOk(f.apid) /\ AutoOk(f.ctid)
       [] fe = "dlf"   -> /\ ~f.not /\ f.lcs.k = "none" /\ f.ecu.k \in {"none", "lit"}
                          /\ (f.type.k = "none" \/ (f.type.k = "mstp" /\ f.type.v = 3))
+                         /\ NonEmptySyn(f.apid) /\ NonEmptySyn(f.ctid)
       [] fe = "dlfa"  -> /\ ~f.not /\ f.lcs.k = "none" /\ f.ecu.k \in {"none", "lit"}
                          /\ (f.type.k = "none" \/ (f.type.k = "mstp" /\ f.type.v = 3))
                          /\ (f.apid.k # "none" \/ f.ctid.k # "none") /\ AutoOk(f.apid) /\ AutoOk(f.ctid)
@@ -142,6 +165,7 @@ Expressible(fe, f) ==
                          /\ f.apid.k = "lit" /\ Len(f.apid.w) <= 4 /\ f.ctid.k = "lit" /\ Len(f.ctid.w) <= 4
       [] fe = "eac"   -> /\ f.enabled /\ ~f.not /\ f.kind = 0 /\ OnlyIds(f) /\ SomeId(f)
                          /\ AutoOk(f.ecu) /\ AutoOk(f.apid) /\ AutoOk(f.ctid)
+                         /\ NonEmptySyn(f.ecu) /\ NonEmptySyn(f.apid) /\ NonEmptySyn(f.ctid)
       [] fe = "api"   -> ~f.not /\ f.pay.k \in {"none", "sub"} /\ ~f.pay.ic /\ f.type.k \in {"none", "raw"}
 FrontEnds == {"json", "jsona", "dlf", "dlfa", "conv", "eac", "api"}
 FrontEndsOf(f) == {fe \in FrontEnds : Expressible(fe, f)}
